@@ -33,7 +33,23 @@ struct vp_in {
 #ifndef VP_SHRINK
 #define VP_SHRINK 0
 #endif
-#define STATE(keep) NEW((keep) - VP_SHRINK)
+/* the state object: exactly `keep` octets. CBMC types a heap object by the sizeof in the malloc argument; a
+ * word-typed object makes symbolic execution of the word-wise state accesses ~10x cheaper than an octet array
+ * (same object size, same bounds). Native replay: plain malloc(keep). */
+static void* vp_state(size_t keep)
+{
+	void* p;
+#ifdef VP_STATE_BYTES
+	/* bundles whose sub-states sit at odd offsets (botp: octet stack[] at offset 66/58): a 16-bit-typed object */
+	if (keep % 2 == 0) p = malloc(sizeof(unsigned short) * (keep / 2)); else
+#endif
+	if (keep % 8 == 0) p = malloc(sizeof(unsigned long long) * (keep / 8));
+	else if (keep % 4 == 0) p = malloc(sizeof(unsigned) * (keep / 4));
+	else p = malloc(keep);
+	VP_MALLOC_OK(p);
+	return p;
+}
+#define STATE(keep) vp_state((keep) - VP_SHRINK)
 
 /* ------------------------------------------------------------------ belt: block modes */
 #if defined(B_ECB)
